@@ -486,6 +486,8 @@ pub struct GenCfg {
 impl GenCfg {
     pub const SMALL: GenCfg = GenCfg { pos: 24, size: 20, max_width: 7, dotted: false };
     pub const MEDIUM: GenCfg = GenCfg { pos: 80, size: 70, max_width: 12, dotted: false };
+    /// as SMALL, but a quarter of the styles use `StrokeStyle::Dotted` (properties without a solid-stroke carve-out)
+    pub const SMALL_DOTTED: GenCfg = GenCfg { pos: 24, size: 20, max_width: 7, dotted: true };
 }
 
 pub fn gen_style(rng: &mut Rng, cfg: &GenCfg) -> StyleD {
@@ -592,9 +594,24 @@ pub fn gen_styled(rng: &mut Rng, cfg: &GenCfg, which: Option<usize>) -> Desc {
     Desc::Styled(p, s)
 }
 
+/// rectangle with a dotted stroke (the only primitive that implements `StrokeStyle::Dotted`),
+/// sizes up to 60 so that dots of every size class and all four sides appear
+pub fn gen_dotted_rect(rng: &mut Rng) -> Desc {
+    let size = match rng.below(4) {
+        0 => (rng.u32r(0, 6), rng.u32r(0, 6)),
+        1 => (rng.u32r(0, 60), rng.u32r(0, 12)),
+        2 => (rng.u32r(0, 12), rng.u32r(0, 60)),
+        _ => (rng.u32r(0, 60), rng.u32r(0, 60)),
+    };
+    Desc::Styled(
+        Prim::Rect { tl: (rng.i32r(-20, 30), rng.i32r(-20, 30)), size },
+        StyleD { fill: if rng.chance(1, 3) { Some(rng.u32r(1, 3)) } else { None }, stroke: if rng.chance(9, 10) { Some(rng.u32r(4, 6)) } else { None }, width: rng.u32r(0, 12), align: rng.below(3) as u8, dotted: true },
+    )
+}
+
 pub fn gen_image<C: Col>(rng: &mut Rng, max_w: u32, max_h: u32) -> Desc {
-    let w = rng.u32r(0, max_w);
-    let h = rng.u32r(0, max_h);
+    // 1 in 12 images is wide (row strides/skips beyond 255)
+    let (w, h) = if rng.chance(1, 12) { (rng.u32r(250, 420), rng.u32r(1, 3)) } else { (rng.u32r(0, max_w), rng.u32r(0, max_h)) };
     let data = rng.bytes(image_data_len::<C>(w, h));
     let mut subs = Vec::new();
     let mut cur = (w as i32, h as i32);
@@ -682,8 +699,10 @@ pub fn gen_string(rng: &mut Rng) -> String {
 pub fn gen_custom_font(rng: &mut Rng) -> CustomFontD {
     let cw = rng.u32r(1, 7);
     let ch = rng.u32r(1, 9);
-    let per_row = rng.u32r(1, 7);
-    let glyphs = rng.u32r(1, 12);
+    // 1 in 10 fonts has a wide atlas (more than 256 pixels per row) with many glyphs
+    let wide = rng.chance(1, 10);
+    let per_row = if wide { rng.u32r(260 / cw + 1, 420 / cw + 1) } else { rng.u32r(1, 7) };
+    let glyphs = if wide { rng.u32r(per_row + 1, per_row * 2 + 3).min(180) } else { rng.u32r(1, 12) };
     let rows = (glyphs + per_row - 1) / per_row;
     let image_w = cw * per_row + if rng.chance(1, 3) { rng.u32r(0, cw - 1) } else { 0 };
     let image_h = rows * ch;
